@@ -107,3 +107,88 @@ def add_synthetic_streams(env, ctx, res) -> None:
     }
     env.add_stream('syn', title='Synthetic irregular 90 kHz video', files=files)
     res.count('synthetic.streams')
+    # second synthetic stream: structural variants of the same media that no fixture has -
+    #   video: irregular durations AND no tfdt boxes AND fragments numbered from 5
+    #   audio: explicit tfhd.base_data_offset (absolute position in the stored file)
+    durs2 = [3750, 3747, 3755, 3750, 3752, 3749, 3750, 3751, 3748, 3753]
+    video2 = restructure(retime(src, 90000, durs2), first_sequence=5, drop_tfdt=True)
+    audio2 = restructure((FIXTURES / 'bbb' / 'bbb_a1.mp4').read_bytes(), explicit_base=True)
+    for data in (video2, audio2):
+        sf2 = ib.index_file(data)       # the independent walker accepts the re-laid-out file
+        assert len(sf2.segments) == 10
+    env.add_stream('sy2', title='Synthetic: no tfdt, numbered from 5, explicit base offsets',
+                   files={'sy2_v1': video2, 'sy2_a1': audio2})
+    res.count('synthetic.streams')
+
+
+def _patch_sizes(m: bytearray, chain: list, delta: int) -> None:
+    for b in chain:
+        struct.pack_into('>I', m, b.start, struct.unpack_from('>I', m, b.start)[0] + delta)
+
+
+def restructure(buf: bytes, first_sequence: int | None = None, drop_tfdt: bool = False,
+                explicit_base: bool = False) -> bytes:
+    """Re-lays a fragmented file out fragment by fragment (same payloads, same durations):
+      first_sequence  mfhd sequence numbers count from this value instead of 1
+      drop_tfdt       the tfdt box of every fragment is removed (decode times must be derived)
+      explicit_base   tfhd carries an absolute base_data_offset (position of the moof box in the
+                      stored file) instead of default-base-is-moof
+    sidx referenced sizes and trun data offsets are kept consistent with the new layout."""
+    root = ib.parse_file(buf)
+    out = bytearray()
+    pending_sidx = None        # (offset of the sidx in out, parsed box)
+    bases = []                 # (offset in out of the tfhd base field, moof position in out)
+    seq = first_sequence
+    for c in root.children:
+        raw = bytearray(buf[c.start:c.end])
+        if c.type == b'sidx':
+            pending_sidx = (len(out), c)
+            out += raw
+            continue
+        if c.type != b'moof':
+            out += raw
+            continue
+        m = raw
+        delta = 0
+        local = ib.parse_file(bytes(m)).children[0]
+        if seq is not None:
+            mf = local.find(b'mfhd')
+            struct.pack_into('>I', m, mf.body + 4, seq)
+            seq += 1
+        if drop_tfdt:
+            local = ib.parse_file(bytes(m)).children[0]
+            traf = local.find(b'traf')
+            td = traf.find(b'tfdt')
+            if td is not None:
+                _patch_sizes(m, [local, traf], -td.size)
+                del m[td.start:td.end]
+                delta -= td.size
+        if explicit_base:
+            local = ib.parse_file(bytes(m)).children[0]
+            traf = local.find(b'traf')
+            tf = traf.find(b'tfhd')
+            _, flags, p = ib.fullbox(m, tf)
+            if not flags & 1:
+                struct.pack_into('>I', m, tf.body, ((flags | 0x1) & ~0x20000))
+                _patch_sizes(m, [local, traf, tf], 8)
+                m[p + 4:p + 4] = b'\0' * 8
+                delta += 8
+                bases.append((len(out) + p + 4, len(out)))
+        if delta:
+            local = ib.parse_file(bytes(m)).children[0]
+            tr = local.find(b'traf', b'trun')
+            _, tflags, tp = ib.fullbox(m, tr)
+            if tflags & 1:
+                old = struct.unpack_from('>i', m, tp + 4)[0]
+                struct.pack_into('>i', m, tp + 4, old + delta)
+            if pending_sidx is not None:
+                off, sb = pending_sidx
+                sv, _, sp = ib.fullbox(buf, sb)
+                ref = off + (sp - sb.start) + (28 if sv else 20)
+                word = struct.unpack_from('>I', out, ref)[0]
+                struct.pack_into('>I', out, ref, (word & 0x80000000) | ((word & 0x7FFFFFFF) + delta))
+        pending_sidx = None
+        out += m
+    for field_off, moof_pos in bases:
+        struct.pack_into('>Q', out, field_off, moof_pos)
+    return bytes(out)
